@@ -52,6 +52,33 @@ def run(tier, seed):
     for _ in range(6000 if th else 260):
         ds, r, tag = rrgen.shift_case(rnd, kind=rnd.choice(['z', 'z', 'db', 'db', 'b', 'd']))
         allc.append((ds, r, tag, rnd.choice([70, 130, 200]), (2098, 12, 31)))
+    # dates at the turn of the year that a shift carries into the neighbouring year: DTSTART in the days around New Year (the
+    # carried date is the first occurrence, or just misses being it), and streams of well over 64 occurrences (the carried date as
+    # the one kept back at a cache refill)
+    import calendar
+    for _ in range(1500 if th else 90):
+        fwd = rnd.random() < 0.65
+        r = rrgen.blank(rnd.choice(['YEARLY', 'YEARLY', 'MONTHLY']))
+        while True:
+            kind = rnd.choice(['z', 'z', 'b', 'b+', 'd', 'db']); nn = rnd.choice([1, 2, 3, 4]) * (1 if fwd else -1)
+            r['shift_text'], r['shift'] = rrgen.shift_variant(rnd, kind, nn if kind in ('d', 'b', 'b+') else None)
+            if kind in ('d', 'b', 'b+') or (r['shift'][0] >= 0 and r['shift'][2] >= 0) == fwd or rnd.random() < 0.2: break
+        if rnd.random() < 0.5:
+            # New Year's Day and New Year's Eve, DTSTART on one of them in a year whose turn is a weekend (DTSTART has to be
+            # a date of the unshifted rule for the result to be defined)
+            r['mon'] = [1, 12]; r['md'] = rnd.choice([[1, 31], [-1, 1], [1, 2, 30, 31]])
+            while True:
+                y = rnd.randint(1903, 2090)
+                if calendar.weekday(y - 1, 12, 31) >= 5 or calendar.weekday(y, 1, 1) >= 5 or rnd.random() < 0.15: break
+            ds = (y, 1, 1) if rnd.random() < 0.6 else (y - 1, 12, 31)
+            if rnd.random() < 0.3: ds = ds + (rnd.randint(0, 23), rnd.choice([0, 30]), 0)
+            allc.append((ds, r, 'turn-of-year', 70, (2098, 12, 31)))
+        else:
+            if fwd: r['mon'] = [12]; r['md'] = rnd.choice([[31], [-1], [30, 31], [29], [-2, -1]])
+            else: r['mon'] = [1]; r['md'] = rnd.choice([[1], [1, 2], [2], [3]])
+            d0 = r['md'][0] if r['md'][0] > 0 else 32 + r['md'][0]
+            ds = (rnd.randint(1903, 1960), r['mon'][0], d0)
+            allc.append((ds, r, 'turn-of-year-long', 200, (2098, 12, 31)))
     # outside the comfortable region: INTERVAL > 1, sub-monthly FREQ
     for _ in range(2000 if th else 80):
         ds, r, tag = rrgen.shift_case(rnd, freqs=rnd.choice([('YEARLY', 'MONTHLY'), ('WEEKLY', 'DAILY')]), inter1=False)
